@@ -39,6 +39,11 @@ func listLen(r *prng.R, cap int) int {
 
 func patBytes(r *prng.R, n int) []byte {
 	b := make([]byte, n)
+	if n == 16 && r.Chance(1, 7) { // an IPv4-mapped IPv6 address (::ffff:a.b.c.d): net.IP.To4() is non-nil for it
+		b[10], b[11] = 0xff, 0xff
+		copy(b[12:], r.Bytes(4))
+		return b
+	}
 	switch r.Intn(8) {
 	case 0:
 	case 1:
